@@ -619,6 +619,8 @@ HAND_DOCS = [
     "```recipe\nsauce = boil(tomato)\n```\n\nmiddle\n\n~~~recipe\n   \n~~~\n\n```recipe\npour(sauce, pasta)\n```\n",
     "Only a stub:\n\n```new-recipe\n```\n",
     "    1 egg\n\n```new-recipe\n\n```\n\n{2}\n",
+    # backslashes in ingredient / step / output names (the tables must be inserted verbatim)
+    "    dir\\temp = mix\\1(1 back\\slash, 2 'a\\\\b', \"x\\\\1y\")\n\n```recipe\nfry\\x(dir\\temp, 1 tsp c\\\\new\\table, egg\\g<0>)\n```\n",
     # other compile errors
     "```recipe\nsauce = boil(tomato)\n```\n\n```recipe\nsauce = fry(egg)\n```\n",
 ]
